@@ -3,6 +3,7 @@ package props
 import (
 	"bytes"
 	"context"
+	"errors"
 	"fmt"
 	"math/rand"
 	"sort"
@@ -560,6 +561,7 @@ func runC16(c *harness.Case) {
 	kind := c16Engines[c.Index%len(c16Engines)]
 	var n *harness.Node
 	var eng *harness.Engine
+	var iw *harness.Wrap // in the storage path of every case, for the transient-iterator-error probe at the end
 	if strings.Contains(kind, "/") {
 		// the engine reports several partitions (TiKV mock pre-split into regions / GetPartitions override), with
 		// borders among the keys this case writes: the etcd answers must not depend on that
@@ -569,12 +571,16 @@ func runC16(c *harness.Case) {
 			return
 		}
 		eng = e2
-		n = harness.NewNode(harness.NodeOpts{KV: kv, Config: backend.Config{EnableEtcdCompatibility: true}})
+		iw = harness.NewWrap(kv)
+		n = harness.NewNode(harness.NodeOpts{KV: iw, Config: backend.Config{EnableEtcdCompatibility: true}})
 	} else {
-		var ok bool
-		if n, eng, ok = newSeqNode(c, kind, backend.Config{EnableEtcdCompatibility: true}); !ok {
+		var err error
+		if eng, err = harness.NewEngine(kind); err != nil {
+			c.Inconclusive("engine: " + err.Error())
 			return
 		}
+		iw = harness.NewWrap(eng.KV)
+		n = harness.NewNode(harness.NodeOpts{KV: iw, Config: backend.Config{EnableEtcdCompatibility: true}})
 	}
 	defer eng.Close()
 	defer n.Retire()
@@ -749,6 +755,40 @@ func runC16(c *harness.Case) {
 			if !ok {
 				c.Violatef("C16 watch-events-differ-from-etcd", e.wit(), "event #%d is %s %q=%q@%d prev=%v; etcd semantics give %s", i, g.Type, g.Kv.Key, g.Kv.Value, g.Kv.ModRevision, g.PrevKv, tStr(t))
 				break
+			}
+		}
+	}
+	if c.Index%3 == 1 && c.R.Verdict != "violated" {
+		// an unlimited range read during which one iterator answers a single transient error at a PRNG-drawn step (the
+		// scanner retries that partition after its 1 s backoff): the answer is an error, or exactly what etcd would give
+		encS, encE := coderC.EncodeObjectKey([]byte(full), 0), coderC.EncodeObjectKey(backend.PrefixEnd([]byte(full)), 0)
+		recs, derr := harness.Dump(eng.KV, encS, encE)
+		if derr == nil && len(recs) > 2 {
+			cur := n.Committed()
+			want := e.m.Snapshot(full, string(backend.PrefixEnd([]byte(full))), cur)
+			N := 1 + r.Intn(len(recs))
+			var fired int32
+			iw.IterFault = func(start, end []byte, k int) error {
+				if k == N && atomic.CompareAndSwapInt32(&fired, 0, 1) {
+					return errors.New("injected transient iterator error")
+				}
+				return nil
+			}
+			resp, err := e.api.Range(context.Background(), &etcdserverpb.RangeRequest{Key: []byte(full), RangeEnd: backend.PrefixEnd([]byte(full)), Revision: int64(cur)})
+			iw.IterFault = nil
+			e.hist = append(e.hist, fmt.Sprintf("range(whole prefix,rev=%d) with one transient iterator error at step %d -> %s count=%d err=%v", cur, N, kvDesc(resp.GetKvs()), resp.GetCount(), err))
+			if err == nil {
+				ok := len(resp.Kvs) == len(want) && resp.Count == int64(len(want))
+				for i := 0; ok && i < len(want); i++ {
+					ok = want[i].Key == string(resp.Kvs[i].Key) && bytes.Equal(want[i].Val, resp.Kvs[i].Value) && int64(want[i].Rev) == resp.Kvs[i].ModRevision
+				}
+				if !ok {
+					c.Violatef("C16 range-read-differs-from-etcd after-transient-iterator-error", e.wit(), "Range(whole prefix,rev=%d) retried a partition after a transient iterator error and answered %s count=%d; etcd semantics give %s", cur, kvDesc(resp.Kvs), resp.Count, mkvStr(want))
+				} else if atomic.LoadInt32(&fired) == 1 {
+					c.Stat("ranges_compared_after_a_transient_iterator_error", 1)
+				}
+			} else {
+				c.Stat("ranges_failed_by_the_transient_iterator_error", 1)
 			}
 		}
 	}
